@@ -305,11 +305,11 @@ def special_defs():
         return python.define(ns[name], inputs=inputs, outputs=["out"])
 
     out = []
-    out.append(("requires-survive (fixed 780117d2)", None, lambda: mkpy(
+    out.append(("requires-survive (fixed bd8720d1)", None, lambda: mkpy(
         "Req", a=python.arg(type=str | None, default=None, requires=[["b", ("c", ["u", "v"])], ["b"]]),
         b=python.arg(type=bool, default=False), c=python.arg(type=str, default=""))))
-    out.append(("dict-default (fixed 26268195)", None, lambda: mkpy("DictD", a=python.arg(type=dict[str, int], default={"k": 1}))))
-    out.append(("enum-type (fixed 26268195)", None, lambda: mkpy("EnumT", a=python.arg(type=Colour, default=Colour.RED))))
+    out.append(("dict-default (fixed 4721430a)", None, lambda: mkpy("DictD", a=python.arg(type=dict[str, int], default={"k": 1}))))
+    out.append(("enum-type (fixed 4721430a)", None, lambda: mkpy("EnumT", a=python.arg(type=Colour, default=Colour.RED))))
     out.append(("tuple-default-under-tuple-type", None, lambda: mkpy("TupD", a=python.arg(type=tuple[int, int], default=(1, 2)))))
     out.append(("set-default-under-set-type", None, lambda: mkpy("SetD", a=python.arg(type=set[str], default={"k"}))))
     out.append(("outarg-without-path_template", "F32b", lambda: shell.define(
